@@ -158,4 +158,161 @@ def verify_arbiter_grant():
     return fv
 
 
-ALL = [verify_arbiter_grant]
+OPT_REQ = ("lock", "cti", "bte")
+OPT_RSP = ("err", "rty")
+
+
+def verify_arbiter_fanout():
+    """C08 (L1 part), for EVERY number of initiators: the statements the real Arbiter.elaborate() issues for ONE ARBITRARY initiator i
+    in its second Switch(grant), for every combination of optional signals on the arbiter's bus and on the initiator:
+      read-data-always               outside any Case: intr.dat_r := bus.dat_r;  an initiator with a stall input gets a private signal with
+                                     init 1 wired to it (so that every non-owner sees a stall)
+      owner-drives-the-bus           in Case(i): bus.adr/dat_w/sel (replicated by granularity ratio)/we/stb/cyc := the initiator's;
+                                     bus.lock/cti/bte := the initiator's signal or the documented default, iff the bus has the signal
+      owner-sees-the-responses       in Case(i): intr.ack := bus.ack; intr.err / rty := the bus's signal or 0, iff the initiator has it;
+                                     the private stall signal := bus.stall, or ~bus.ack when the bus has no stall line
+      nothing-else-per-initiator     and every optional signal is examined on every path"""
+    fv = FnVerifier("wishbone.bus.Arbiter.elaborate[fan-out]", AX)
+    fn = find_def(FILE, "Arbiter.elaborate")
+    ex = Exec(FILE, "Arbiter", axioms=AX)
+    log = hdlrec.Log()
+    m, values = hdlrec.module(log)
+    ex.contracts["Module"] = lambda ex_, recv, a, kw, q, node: [(m, q)]
+    made = []
+
+    def c_signal(ex_, recv, a, kw, q, node):
+        if "init" in kw:
+            s = hdlrec.signal(values, "intr_bus_stall"); s.init = kw["init"]; made.append(s); return [(s, q)]
+        name = ["requests", "grant"][len([x for x in made if x.name in ("requests", "grant")])]
+        s = hdlrec.signal(values, name, width=N if name == "requests" else None); made.append(s)
+        return [(s, q)]
+    ex.contracts["Signal"] = c_signal
+    RATIO = z3.Int("granularity_ratio")
+    ex.contracts["Cat"] = lambda ex_, recv, a, kw, q, node: [(values.wrap(Expr("cat", "genexp")), q)]
+    names = ("adr", "dat_w", "dat_r", "sel", "cyc", "stb", "we", "ack", "stall") + OPT_REQ + OPT_RSP
+    bus = SymObj("Interface", "self.bus"); intr = SymObj("Interface", "intr_bus")
+    for nm in names:
+        bus.init_fields[nm] = hdlrec.signal(values, "bus." + nm)
+        intr.init_fields[nm] = hdlrec.signal(values, "intr." + nm)
+    bus.init_fields["granularity"] = z3.Int("bus_granularity"); intr.init_fields["granularity"] = z3.Int("intr_granularity")
+    opt = OPT_REQ + OPT_RSP + ("stall",)
+    has = {(o, f): z3.Bool(f"has_{o}_{f}") for o in ("bus", "intr") for f in opt}
+
+    def which(o):
+        return "bus" if o is bus else ("intr" if o is intr else None)
+
+    def c_hasattr(ex_, recv, a, kw, q, node):
+        o, f = a
+        w = which(o)
+        if w and isinstance(f, Opaque) and f.what.startswith("str:") and (w, f.what[4:]) in has:
+            return [(has[(w, f.what[4:])], q)]
+        raise Unsupported(f"hasattr({o!r}, {f!r})")
+    ex.contracts["hasattr"] = c_hasattr
+
+    def c_getattr(ex_, recv, a, kw, q, node):
+        o, f, default = a
+        w = which(o)
+        if not (w and isinstance(f, Opaque) and f.what.startswith("str:") and (w, f.what[4:]) in has):
+            raise Unsupported(f"getattr({o!r}, {f!r}, default)")
+        name = f.what[4:]
+        yes, no = q, q.fork()
+        yes.assume(has[(w, name)]); no.assume(z3.Not(has[(w, name)]))
+        return [(o.init_fields[name], yes), (values.wrap(Expr("default", values.operand(ex_, default, node))), no)]
+    ex.contracts["getattr"] = c_getattr
+
+    class IntrList:
+        def length(self, ex_, recv, q, node):
+            return N
+    self_ = SymObj("Arbiter", "self")
+    self_.init_fields.update({"bus": bus, "_intrs": SymObj("list", "self._intrs", model=IntrList())})
+    marks = {}
+
+    def loop(ex_, st_node, path):
+        it = ast.unparse(st_node.iter)
+        if it == "range(len(requests))":
+            return [("fall", None, path)]             # the grant logic: the other contract (verify_arbiter_grant)
+        if it != "enumerate(self._intrs)":
+            ex_.unsupported(st_node, f"loop over {it}")
+        body = path.fork()
+        body.assume(z3.And(bus.init_fields["granularity"] >= 1, intr.init_fields["granularity"] >= 1))
+        start_ = len(log.entries)
+        marks["start"] = start_
+        out = []
+        for kind, _, q2 in ex_.assign(st_node.target, Tup((G, intr)), body, st_node):
+            for kind2, val2, q3 in ex_.block(st_node.body, q2):
+                if kind2 in ("fall", "continue"):
+                    marks.setdefault("ends", []).append((q3, len(log.entries), start_))
+                else:
+                    out.append((kind2, val2, q3))
+        out.append(("fall", None, path))
+        return out
+
+    class _Every(dict):
+        def get(self, key, default=None):
+            return loop
+    ex.loop_invariants = _Every()
+    q = Path()
+    q.env.update({"self": self_, "platform": Opaque("platform")})
+    outs = ex.run(fn, q)
+    fv.paths = len(outs)
+    for k, o in enumerate(outs):
+        fv.add("no-exception", f"path{k}", o.path.pc, z3.BoolVal(o.kind == "return"))
+    g = lambda o, n: o.init_fields[n].expr
+
+    def val(pc, var):
+        for f in pc:
+            if f.eq(var):
+                return True
+            if z3.is_not(f) and f.arg(0).eq(var):
+                return False
+        return None
+    grant = [x for x in made if x.name == "grant"][0].expr
+    sw = ("Switch", grant)
+    case = ("Case", (Expr("const", G),))
+    stall_sig = Expr("sig", "intr_bus_stall")
+    defaults = {"lock": Expr("const", z3.IntVal(0)), "cti": Expr("opaque", "global:CycleType.CLASSIC"), "bte": Expr("opaque", "global:BurstTypeExt.LINEAR")}
+    n_i = 0
+    for qend, upto, start_ in marks.get("ends", []):
+        n_i += 1
+        lab = f"initiator-path{n_i}"
+        mine = [e for e in log.entries[start_:upto] if all(any(f.eq(h) for h in qend.pc) for f in e["path"].pc)]
+        V = lambda o, f: val(qend.pc, has[(o, f)])
+        unexamined = [f"initiator {f}" for f in OPT_RSP + ("stall",) if V("intr", f) is None] + [f"bus {f}" for f in OPT_REQ if V("bus", f) is None]
+        unexamined += [f"initiator {f}" for f in OPT_REQ if V("bus", f) and V("intr", f) is None]
+        unexamined += [f"bus {f}" for f in OPT_RSP + ("stall",) if V("intr", f) and V("bus", f) is None]
+        fv.add("every-optional-signal-examined", lab, qend.pc, z3.BoolVal(not unexamined))
+        exp = [("read-data-always", g(intr, "dat_r"), g(bus, "dat_r"), (sw,))]
+        if V("intr", "stall"):
+            exp.append(("non-owner-stall-default", g(intr, "stall"), stall_sig, (sw,)))
+        exp += [("owner-address", g(bus, "adr"), g(intr, "adr"), (sw, case)), ("owner-write-data", g(bus, "dat_w"), g(intr, "dat_w"), (sw, case)),
+                ("owner-select-replicated", g(bus, "sel"), Expr("cat", "genexp"), (sw, case)), ("owner-write-enable", g(bus, "we"), g(intr, "we"), (sw, case)),
+                ("owner-strobe", g(bus, "stb"), g(intr, "stb"), (sw, case)), ("owner-cycle", g(bus, "cyc"), g(intr, "cyc"), (sw, case))]
+        for f in OPT_REQ:
+            if V("bus", f):
+                exp.append((f"owner-{f}-or-default", g(bus, f), g(intr, f) if V("intr", f) else Expr("default", defaults[f]), (sw, case)))
+        exp.append(("owner-sees-ack", g(intr, "ack"), g(bus, "ack"), (sw, case)))
+        for f in OPT_RSP:
+            if V("intr", f):
+                exp.append((f"owner-sees-{f}-or-zero", g(intr, f), g(bus, f) if V("bus", f) else Expr("default", Expr("const", z3.IntVal(0))), (sw, case)))
+        if V("intr", "stall"):
+            exp.append(("owner-sees-stall-or-not-ack", stall_sig,
+                        g(bus, "stall") if V("bus", "stall") else Expr("default", Expr("op", "Invert", (g(bus, "ack"),))), (sw, case)))
+        ok_len = len(mine) == len(exp) and all(e["kind"] == "assign" and e["domain"] == "comb" for e in mine)
+        fv.add("nothing-else-per-initiator", lab, qend.pc, z3.BoolVal(ok_len))
+        if not ok_len and not getattr(fv, "_dbg", False):
+            fv._dbg = True
+            fv.debug = (len(mine), len(exp), [(e["dst"], e["src"]) for e in mine], [x[0] for x in exp], [str(f) for f in qend.pc if "has_" in str(f)])
+        if ok_len:
+            for (nm, dst, srcx, ctx), e in zip(exp, mine):
+                fv.add(nm, lab, qend.pc, z3.And(z3.BoolVal(len(e["ctx"]) == len(ctx)), same_expr(e["dst"], dst), same_expr(e["src"], srcx),
+                                                *[z3.And(z3.BoolVal(c1[0] == c2[0]), same_expr(c1[1], c2[1])) for c1, c2 in zip(e["ctx"], ctx)]))
+        if V("intr", "stall"):
+            st = [x for x in made if x.name == "intr_bus_stall"]
+            fv.add("private-stall-signal-resets-to-1", lab, qend.pc,
+                   z3.BoolVal(len(st) >= 1) if not st else (ex.toint(st[-1].init) == 1))
+    fv.add("cover:initiator-paths", "vacuity", [], z3.BoolVal(n_i >= 16))
+    fv.add_engine_obligations(ex)
+    return fv
+
+
+ALL = [verify_arbiter_grant, verify_arbiter_fanout]
